@@ -165,7 +165,7 @@ def process_unit(u, pid, scratch, tier, keep_dir=None):
             nonprelude.add(nm)
     for f in vr['functions']:
         short = f['function'].split('::')[-1]
-        if short not in nonprelude:
+        if short not in nonprelude and short not in u.obligations:
             if not f['success']:
                 r['undecided'].append('prelude function %s does not verify (machinery error)' % short)
             continue
